@@ -835,9 +835,9 @@ impl super::DebugSession {
                 for view in &views {
                     let relocated = match view.addr {
                         debugger::address::Address::Relocated(addr) => addr,
-                        debugger::address::Address::Global(addr) => {
-                            debugger::address::RelocatedAddress::from(u64::from(addr))
-                        }
+                        // the debugee is not started: there is no address to jump to yet,
+                        // an object-relative one must not be handed out as a runtime address
+                        debugger::address::Address::Global(_) => continue,
                     };
                     let address = relocated.as_u64();
                     let target_id = i64::try_from(address)
